@@ -218,7 +218,7 @@ class C04(Check):
             'non-trivial = a call event whose result was compared with a freshly built map')
     technique = ('explicit-state breadth-first search over call/mutation histories on the real ExchangeMap with a '
                  'differential oracle (fresh map built from fresh files) after every transition; de Bruijn histories')
-    level_text = ('every history up to depth 3 (quick; 2 on the three special-purpose pairs) / 4-5 (thorough; 3 on those) over an 18-event alphabet (22 on the plain chain pair: plus an argument deformed to a near-degenerate / exactly degenerate anchor frame, a call with a species whose name differs only in letter case and one with the same name and size but other atom names), on 6 reference/target '
+    level_text = ('every history up to depth 3 (quick; 2 on the four special-purpose pairs) / 4-5 (thorough; 3 on those) over an 18-event alphabet (22 on the plain chain pair: plus an argument deformed to a near-degenerate / exactly degenerate anchor frame, a call with a species whose name differs only in letter case and one with the same name and size but other atom names; 19 on the branched pair: plus an argument whose three-bond anchor is in line with its neighbours), on 6 reference/target '
                   'pairs x 2 ways of producing arguments (sharing the species topology as System does / independently '
                   'loaded), is executed on the real map and checked after every event; histories of length 101 and 1002 '
                   'containing every ordered pair / triple of events cover the long-history clause')
@@ -227,6 +227,9 @@ class C04(Check):
                   'compared (the statement speaks of coordinates, names, residue names, count/order, residue numbers). '
                   'Changing residue numbers of construction molecules is outside the statement (species identity)')
     assumptions = ['reference of >= 3 atoms (premise of the statement)', 'scale factor 0.5',
+                   'the pair self_to_self (reference and target share one topology object) carries the open known '
+                   'finding same-species-map/call/unexpected-exception (known_findings.json); its violations have '
+                   'their own signature prefix',
                    'generic conformations from VERIF_SEED tables']
 
     MODES = ('shared_top', 'own_top')
